@@ -67,6 +67,8 @@ def run_step(step, heap):
         return x.dagger(**kw)
     if op == "fuse":
         groups = [tuple(g) for g in a["groups"]]
+        if a.get("as_list"):
+            groups = [list(g) for g in a["groups"]]
         kw = dict(ip)
         for k in ("mode", "expand_empty"):
             if k in a:
@@ -571,6 +573,8 @@ def g_fuse(ctx, heap):
         j = rng.randint(i, min(x.ndim - 1, i + 2))
         groups = [list(range(i, j + 1))]
     a = {"groups": groups}
+    if rng.random() < 0.2:
+        a["as_list"] = True
     if rng.random() < 0.12:
         groups.insert(rng.randint(0, len(groups)), [])
         a["expand_empty"] = rng.random() < 0.7
@@ -578,7 +582,7 @@ def g_fuse(ctx, heap):
         a["mode"] = rng.choice(["auto", "insert", "concat"])
     if ctx.inplace():
         a["inplace"] = True
-    elif len(a) == 1:
+    elif len(a) == 1 or (len(a) == 2 and "as_list" in a):
         a["style"] = ctx.style("func", "do")
     return [{"op": "fuse", "in": [n], "out": _out(ctx, n, a), "a": a}]
 
